@@ -252,7 +252,7 @@ func levelTerm(sv *trustpolicy.SignatureVerification) (string, string) {
 	if len(l.Enforcement) > len(c09Types) {
 		code += "+"
 	}
-	return CSome(CPair(CStr(l.Name), CStr(code))), l.Name + ":" + code
+	return CSome(CPair(cs(l.Name), cs(code))), l.Name + ":" + code
 }
 
 type c09Obs struct {
@@ -404,12 +404,49 @@ func observe(kind string, d, other *hDoc, jsonRng *Rng) (c09Obs, string, []byte)
 
 // ---------- Gallina printing ----------
 
+// short strings ("", "*", "1.0", names, actions ...) are printed as constants
+// defined once in the prelude of the case files (the kit shares only longer
+// literals): elaborating string literals dominates the Coq time.
+var (
+	shortNames = map[string]string{}
+	shortOrder []string
+)
+
+func cs(s string) string {
+	if len(s) > 6 {
+		return CStr(s)
+	}
+	name, ok := shortNames[s]
+	if !ok {
+		name = fmt.Sprintf("z%d_", len(shortOrder))
+		shortNames[s] = name
+		shortOrder = append(shortOrder, s)
+	}
+	return name
+}
+
+func csList(xs []string) string {
+	items := make([]string, len(xs))
+	for i, x := range xs {
+		items[i] = cs(x)
+	}
+	return CList(items)
+}
+
+func shortDefs() string {
+	var b strings.Builder
+	for i, x := range shortOrder {
+		fmt.Fprintf(&b, "Definition z%d_ : string := %s%%string.\n", i, CStr(x))
+	}
+	return b.String()
+}
+
 func svTerm(s hSV) string {
 	items := make([]string, len(s.Ov))
 	for i, kv := range s.Ov {
-		items[i] = CPair(CStr(kv[0]), CStr(kv[1]))
+		items[i] = CPair(cs(kv[0]), cs(kv[1]))
 	}
-	return CApp("mk_sv", CStr(s.Level), CList(items), CStr(s.TS))
+	return CApp("mk_sv", cs(s.Level), CList(items), cs(s.TS))
 }
 
 func docTerm(d *hDoc) string {
@@ -418,15 +455,15 @@ func docTerm(d *hDoc) string {
 	}
 	items := make([]string, len(d.Stmts))
 	for i, s := range d.Stmts {
-		items[i] = CApp("mk_stmt", CStr(s.Name), svTerm(s.SV), CStrList(s.Stores), CStrList(s.Ids), CStrList(s.Scopes), CBool(s.Global))
+		items[i] = CApp("mk_stmt", cs(s.Name), svTerm(s.SV), csList(s.Stores), csList(s.Ids), csList(s.Scopes), CBool(s.Global))
 	}
-	return CSome(CApp("mk_doc", CStr(d.Version), CList(items)))
+	return CSome(CApp("mk_doc", cs(d.Version), CList(items)))
 }
 
 // ---------- pools ----------
 
 var (
-	pNames     = []string{"p0", "p1", "p2", "p3", "wabbit-networks-images", "Policy One", "skip-all", "\xcf\x80"}
+	pNames     = []string{"p0", "p1", "p2", "p3", "wabbit-networks-images", "Policy One", "skip-all", "\xcf\x80", " ", "\t", " p0", "P0", "p0 "}
 	pLevels    = []string{"strict", "permissive", "audit"}
 	pBadLevels = []string{"Strict", "custom", "skip ", "none", "enforce", "SKIP", "strict\n"}
 	pTS        = []string{"", "", "always", "afterCertExpiry"}
@@ -441,6 +478,7 @@ var (
 		"C=US,ST=WA", "CN=a", "C=US,ST=WA,O=", "C=US+ST=WA,O=x", "C=US,C=DE,ST=WA,O=x", "O=#0401,C=US,ST=WA",
 		",,,", "C=US,ST=WA,O=a\\", "=US", "C=US,ST=WA,O", "ST=WA,O=x", "C=US,O=x", "C=,ST=WA,O=x",
 		"C=US,S=WA,ST=WA,O=x", "C=US,ST=WA,O=x,", "C=US,ST=WA,O=x\\zz", "c=US,st=WA,o=x", " ", "C=US;ST=WA;O=x+CN=y",
+		"C=US,ST=WA,CN=a:b", "CN=x:y", "C=US:ST=WA:O=x", "C=US,ST=WA,OU=a:O=b",
 	}
 	pScopes = []string{
 		"registry.acme-rockets.io/net", "localhost:5000/a", "a/b", "example.com/a/b_c", "10.0.0.1:80/x",
@@ -495,7 +533,36 @@ func escDN(v string, rng *Rng) string {
 	return b.String()
 }
 
+// renderDN spells a DN; at most three spellings are kept per attribute list
+// (string literals that repeat are shared in the case files: elaborating
+// literals is what the Coq side spends its time on).
+var renderMemo = map[string][]string{}
+
 func renderDN(attrs []dnAttr, rng *Rng) string {
+	key := fmt.Sprint(attrs)
+	l := renderMemo[key]
+	v := rng.Intn(3)
+	for len(l) <= v {
+		l = append(l, renderDN1(attrs, rng))
+	}
+	renderMemo[key] = l
+	return l[v]
+}
+
+// poolDN draws one of six well-formed DNs with organisation o.
+var dnMemo = map[string][][]dnAttr{}
+
+func poolDN(rng *Rng, o string) string {
+	l := dnMemo[o]
+	v := rng.Intn(6)
+	for len(l) <= v {
+		l = append(l, goodDN(rng, o))
+	}
+	dnMemo[o] = l
+	return renderDN(l[v], rng)
+}
+
+func renderDN1(attrs []dnAttr, rng *Rng) string {
 	parts := make([]string, len(attrs))
 	for i, a := range attrs {
 		k := a.k
@@ -560,7 +627,7 @@ func genIds(rng *Rng) []string {
 	n := 1 + rng.Intn(2)
 	var ids []string
 	for i := 0; i < n; i++ {
-		ids = append(ids, renderDN(goodDN(rng, os[i]), rng))
+		ids = append(ids, poolDN(rng, os[i]))
 	}
 	if rng.Chance(1, 5) {
 		ids = append(ids, Pick(rng, pOtherIds))
@@ -793,7 +860,7 @@ func padIds(s *hStmt, rng *Rng) {
 	if len(s.Ids) >= 2 && s.Ids[0] != "*" {
 		return
 	}
-	s.Ids = []string{renderDN(goodDN(rng, "pad-one"), rng), renderDN(goodDN(rng, "pad-two"), rng)}
+	s.Ids = []string{poolDN(rng, "pad-one"), poolDN(rng, "pad-two")}
 }
 
 // padScopes makes the scopes two valid scopes used nowhere else.
@@ -971,7 +1038,7 @@ var edits = []edit{
 		if force != nil {
 			padIds(s, rng)
 		} else if len(s.Ids) == 1 && s.Ids[0] == "*" {
-			s.Ids = []string{renderDN(goodDN(rng, Pick(rng, dnO)), rng)}
+			s.Ids = []string{poolDN(rng, Pick(rng, dnO))}
 		}
 		s.Ids = insertAt(s.Ids, "*", rng)
 		return true
@@ -983,7 +1050,9 @@ var edits = []edit{
 	idEdit("identity-no-value", func(rng *Rng) string { return "x509.subject:" }),
 	idEdit("identity-bad-dn", func(rng *Rng) string { return "x509.subject:" + pk(rng, pBadDN) }),
 	idEdit("identity-dn-missing-mandatory", func(rng *Rng) string {
-		a := goodDN(rng, Pick(rng, dnO))
+		o := Pick(rng, dnO)
+		poolDN(rng, o)
+		a := dnMemo[o][rng.Intn(len(dnMemo[o]))]
 		drop := pk(rng, []string{"C", "ST", "O"})
 		var b []dnAttr
 		for _, x := range a {
@@ -1022,7 +1091,7 @@ var edits = []edit{
 			default:
 				other = append([]dnAttr{{"CN", "x"}, {"OU", "y"}}, other...)
 			}
-			c := renderDN(goodDN(rng, "unrelated-org"), rng)
+			c := poolDN(rng, "unrelated-org")
 			three := []string{renderDN(base, rng), renderDN(other, rng), c}
 			perms := [][3]int{{0, 1, 2}, {0, 2, 1}, {1, 0, 2}, {1, 2, 0}, {2, 0, 1}, {2, 1, 0}}
 			pm := perms[force.item%6]
@@ -1053,6 +1122,22 @@ var edits = []edit{
 		s := anyStmt(d, rng)
 		if s == nil || len(s.Scopes) == 0 || s.Scopes[0] == "*" {
 			return false
+		}
+		if force != nil {
+			// [x y x], [x x y], [y x x], [x y z x]
+			padScopes(d, s)
+			if force.item%4 == 3 {
+				s.Scopes = append(s.Scopes, freshScope(d))
+			}
+			switch force.item % 4 {
+			case 0, 3:
+				s.Scopes = append(s.Scopes, s.Scopes[0])
+			case 1:
+				s.Scopes = append([]string{s.Scopes[0]}, s.Scopes...)
+			default:
+				s.Scopes = append(s.Scopes, s.Scopes[len(s.Scopes)-1])
+			}
+			return true
 		}
 		s.Scopes = insertAt(s.Scopes, s.Scopes[rng.Intn(len(s.Scopes))], rng)
 		return true
@@ -1168,6 +1253,57 @@ var benign = []edit{
 		s.Stores = insertAt(s.Stores, s.Stores[0], rng)
 		return true
 	}},
+	{"benign-near-duplicate-names", "", func(d *hDoc, rng *Rng) bool {
+		// names that differ only by case or surrounding white space are different names
+		if len(d.Stmts) < 2 {
+			addStmt(d, rng)
+		}
+		i, j := pair(d, rng)
+		for k := range d.Stmts {
+			if k != i && k != j {
+				d.Stmts[k].Name = fmt.Sprintf("other%d", k)
+			}
+		}
+		pr := [][2]string{{"p0", "p0 "}, {"p0", "P0"}, {"p0", " p0"}, {" ", "\t"}, {"a", "a\n"}, {"x", "x."}}
+		q := pr[rng.Intn(len(pr))]
+		if force != nil {
+			q = pr[(force.item/7)%len(pr)]
+		}
+		d.Stmts[i].Name, d.Stmts[j].Name = q[0], q[1]
+		return true
+	}},
+	{"benign-colon-in-identity-value", "", func(d *hDoc, rng *Rng) bool {
+		s := nonSkipStmt(d, rng)
+		if s == nil {
+			return false
+		}
+		s.Ids = []string{pk(rng, []string{"x509.subject:C=US,ST=WA,O=a:b", "x509.subject:C=US,ST=WA,O=:", "x509.subject:CN=x:y,C=US,ST=WA,O=z", "other:a:b", "x509.subject:C=US,ST=WA,O=x509.subject:"})}
+		return true
+	}},
+	{"benign-near-duplicate-scopes", "oci", func(d *hDoc, rng *Rng) bool {
+		// scopes that differ by case of the host, or of which one is a prefix of the other
+		if len(d.Stmts) < 2 {
+			addStmt(d, rng)
+		}
+		i, j := pair(d, rng)
+		pr := [][2]string{{"Reg.IO/x", "reg.io/x"}, {"reg.io/x", "reg.io/x/y"}, {"reg.io/x", "reg.io:80/x"}, {"reg.io/x-y", "reg.io/x--y"}, {"a.b/c", "a/b/c"}}
+		q := pr[rng.Intn(len(pr))]
+		if force != nil {
+			q = pr[(force.item/7)%len(pr)]
+		}
+		for k := range d.Stmts {
+			if len(d.Stmts[k].Scopes) == 1 && d.Stmts[k].Scopes[0] == "*" && (k == i || k == j) {
+				d.Stmts[k].Scopes = nil
+			}
+		}
+		if rng.Bool() || i == j {
+			d.Stmts[i].Scopes = append(d.Stmts[i].Scopes, q[0], q[1])
+		} else {
+			d.Stmts[i].Scopes = append(d.Stmts[i].Scopes, q[0])
+			d.Stmts[j].Scopes = append(d.Stmts[j].Scopes, q[1])
+		}
+		return true
+	}},
 	{"benign-all-skip-oci", "oci", func(d *hDoc, rng *Rng) bool {
 		for i := range d.Stmts {
 			d.Stmts[i].SV = hSV{Level: "skip"}
@@ -1260,7 +1396,7 @@ func randomDoc(kind string, rng *Rng) (*hDoc, int) {
 					bad++
 					s.Ids = append(s.Ids, Pick(rng, []string{"", "nosep", "x509.subject:", "x509.subject:" + Pick(rng, pBadDN)}))
 				default:
-					s.Ids = append(s.Ids, renderDN(goodDN(rng, Pick(rng, dnO)), rng))
+					s.Ids = append(s.Ids, poolDN(rng, Pick(rng, dnO)))
 				}
 			}
 		}
@@ -1351,7 +1487,7 @@ func runC09(a *Args) error {
 	rng := NewRng(a.Seed)
 	prelude := "From NV Require Import Base C09_Model.\nOpen Scope string_scope.\n"
 	w := NewCaseWriter(a, "C09", prelude, "case", "run")
-	w.Rule = "documents of both kinds drawn from a grammar of valid documents (1-3 statements; levels, legal overrides, verifyTimestamp, type:name stores, wildcard / x509.subject / foreign-prefix identities with varied DN spelling (S alias, spaces, ';', backslash and hex escapes), unique scopes, at most one non-skip global statement). Streams: (1) single-edit, systematic: 39 rule-violating and 7 benign operators x both kinds, three statements with the rule violated in the first / middle / last one, the odd element at the front / middle / end of its list, every item of the operator's pool, all ordered pairs for duplicates, narrower/broader/unrelated DN in every order; (2) history: ONE document instance per kind validated repeatedly while edited in place (valid, broken, repaired); (3) grammar with 0, 1 or 2 random edits; (4) randomly assembled documents; (5) fixed regression documents (F1, F11, spec examples, nil). Each document is validated as a Go struct (nil or empty slices/maps at random), validated after decoding JSON text written with literal member names (optional members omitted / empty / null at random, duplicate members sometimes), handed to NewVerifierWithOptions (sometimes together with a document of the other kind), and for accepted documents GetVerificationLevel of every statement is recorded. non-trivial = at most two edits, or random stream with at most two bad picks; distinct = distinct (kind, document, other document)"
+	w.Rule = "documents of both kinds drawn from a grammar of valid documents (1-3 statements; levels, legal overrides, verifyTimestamp, type:name stores, wildcard / x509.subject / foreign-prefix identities with varied DN spelling (S alias, spaces, ';', backslash and hex escapes), unique scopes, at most one non-skip global statement). Streams: (1) single-edit, systematic: 39 rule-violating and 10 benign operators x both kinds, three statements with the rule violated in the first / middle / last one, the odd element at the front / middle / end of its list, every item of the operator's pool, all ordered pairs for duplicates, narrower/broader/unrelated DN in every order; (2) history: ONE document instance per kind validated repeatedly while edited in place (valid, broken, repaired); (3) grammar with 0, 1 or 2 random edits; (4) randomly assembled documents; (5) fixed regression documents (F1, F11, spec examples, nil). Each document is validated as a Go struct (nil or empty slices/maps at random), validated after decoding JSON text written with literal member names (optional members omitted / empty / null at random, duplicate members sometimes), handed to NewVerifierWithOptions (sometimes together with a document of the other kind), and for accepted documents GetVerificationLevel of every statement is recorded. non-trivial = at most two edits, or random stream with at most two bad picks; distinct = distinct (kind, document, other document)"
 	w.Assumptions = []string{
 		"override maps have unique keys (Go map); identity strings are ASCII (limit of the byte-level model of go-ldap ParseDN, C04_DN); all strings are valid UTF-8 (JSON route)",
 		"error classes are recognised from stable phrases of the error texts; the four override-entry errors of GetVerificationLevel are one class (Go map iteration order)",
@@ -1449,8 +1585,12 @@ func runC09(a *Args) error {
 	for _, kind := range kinds {
 		for _, e := range applicable(kind, append(append([]edit{}, edits...), benign...)) {
 			for r := 0; r < per; r++ {
-				d := genValidN(kind, rng, 3)
-				force = &ctl{item: r, stmt: r % 3, pos: (r / 3) % 3}
+				n := 3
+				if r >= per/2 {
+					n = 4 // two offenders with two harmless statements between them
+				}
+				d := genValidN(kind, rng, n)
+				force = &ctl{item: r, stmt: r % n, pos: (r / 3) % 3}
 				ok := e.f(d, rng)
 				force = nil
 				if !ok {
@@ -1480,7 +1620,7 @@ func runC09(a *Args) error {
 		useInst = false
 	}
 	// 2. 0, 1 or 2 edits
-	n := 1000
+	n := 800
 	if a.Tier == "thorough" {
 		n = 40000
 	}
@@ -1510,7 +1650,7 @@ func runC09(a *Args) error {
 		emit(kind, "grammar", names, d, otherDoc(kind), true)
 	}
 	// 3. randomly assembled documents
-	m := 500
+	m := 400
 	if a.Tier == "thorough" {
 		m = 20000
 	}
@@ -1529,5 +1669,6 @@ func runC09(a *Args) error {
 		}
 		emit(kind, "nil-with-other", nil, nil, o, true)
 	}
+	w.Prelude = prelude + shortDefs()
 	return w.Close()
 }
